@@ -142,7 +142,7 @@ def astep (enc : Enc) (k : Nat) (st : String) (σ : ASt) : Except String ASt := 
       pure { tabs := (σ.next, σ.spans h.tid ++ [span]) :: σ.tabs, next := σ.next + 1,
              pool := σ.pool.set ix (some { h' with tid := σ.next }) }
     else pure { (σ.setSpans h.tid (σ.spans h.tid ++ [span])) with pool := σ.pool.set ix (some h') }
-  | "union" =>
+  | "union" | "unionpre" =>
     let hi ← ent 1; let hj ← ent 2
     if hi.tid == hj.tid then
       sharedPre σ where_ hi hj
@@ -279,7 +279,7 @@ partial def ego (enc : Enc) (steps res : List String) (k : Nat) (tids : List (Op
       if !B.rules.isEmpty && refs t > 1 then
         tids' := tids.set ix (some next); next' := next + 1
         E := { E with cow := E.cow + 1 }
-    | "union" =>
+    | "union" | "unionpre" =>
       let i ← argN 1; let j ← argN 2; let ti ← tidOf 1; let tj ← tidOf 2
       if ti == tj then
         ms := some (.union i j); tids' := tids ++ [some ti]; E := { E with shared := E.shared + 1 }
